@@ -33,7 +33,7 @@ m = {
     "setup_cmd": "./check --setup",
     "hooks": {
         "guard": "verif",
-        "enable": "no source hooks: harness files are injected with `go test -overlay` + `-modfile` from /verif (build tag e2e_testing, which upstream ships, is used for the multi-node simulator); -tags verif is reserved and unused",
+        "enable": "no source hooks: harness files are injected with `go test -overlay` + `-modfile` from /verif (build tag e2e_testing, which upstream ships, is used for the multi-node simulator); -tags verif is reserved and unused. The lock-discipline part of C34 additionally substitutes, through the same overlay, copies of hostmap.go, handshake_manager.go, lighthouse.go and remote_list.go generated at build time from the current /repo working tree with one textual substitution each (embedded sync.RWMutex -> bookkeeping wrapper, `rewrite` in conf.d/C34.py); nothing is committed to or changed in /repo for it",
         "baseline_off_cmd": "cd /repo && GOFLAGS=-mod=mod go test -vet=off -count=1 -timeout 25m ./...",
         "source_commits": checks_conf.HOOK_COMMITS,
         "add_only": True,
